@@ -267,6 +267,51 @@ def replay(case):
     return step(nodes, model, case["op"], case)
 
 
+def scale_work(item):
+    """beyond the BFS: (many-prefixes) a parent binding k of six prefixes, a child binding any subset of the six to URIs of
+    its own, leaf or with a child below it, attached by append or at index 0; (deep) chains of 30 and 64 nodes with
+    declarations at several depths, a removal near the top and a re-declaration near the bottom.  Every step is judged by
+    the same model as the BFS."""
+    kind, payload = item
+    acc = core.Acc()
+    n = 0
+    if kind == "many-prefixes":
+        k = payload
+        P = [f"p{j}" for j in range(6)]
+        for bits in range(64):
+            S = [P[j] for j in range(6) if (bits >> j) & 1]
+            for with_grandchild in (False, True):
+                for index in (None, 0):
+                    history = [["attach", 0, 2, None]] if index == 0 else []        # (index 0 needs an existing child)
+                    history += [["declare", 0, P[j], "u"] for j in range(k)]
+                    history += [["declare", 1, pf, "own-" + pf] for pf in S]
+                    if with_grandchild:
+                        history += [["attach", 1, 3, None]]
+                    history += [["attach", 0, 1, index]]
+                    history += [["declare", 0, "late", "u-late"], ["remove", 0, P[0]]]
+                    n += 1
+                    try:
+                        replay_history(4, history)
+                    except PrefixFailed as e:
+                        acc.add_problems([dict(p_, case=dict(p_["case"], scale="many-prefixes")) for p_ in e.probs])
+    else:
+        depth = payload
+        history = [["attach", i, i + 1, None] for i in range(depth - 1)]
+        history += [["declare", 0, "p", "u1"], ["declare", depth // 2, "q", "u2"], ["declare", depth - 2, "p", "u2"],
+                    ["remove", 1, "p"], ["declare", 0, "r", "u3"], ["remove", 0, "q"], ["declare", 2, "q", "u1"], ["remove", 2, "r"]]
+        n += 1
+        try:
+            replay_history(depth, history)
+        except PrefixFailed as e:
+            acc.add_problems([dict(p_, case=dict(p_["case"], scale="deep")) for p_ in e.probs])
+    acc.count("scale_histories", n)
+    return acc
+
+
+def scale_items():
+    return [("many-prefixes", k) for k in range(7)] + [("deep", d) for d in (26, 30, 64)]
+
+
 RUNS = {
     "quick": [dict(k=3, bulk=False, depth=None), dict(k=3, bulk=True, depth=4), dict(k=3, bulk=False, depth=5, unborn=True)],
     "thorough": [dict(k=3, bulk=False, depth=None), dict(k=3, bulk=True, depth=6),
@@ -292,6 +337,7 @@ def explore(tier):
                     "transitions": info["transitions"], "max_bfs_depth": info["max_bfs_depth"],
                     "fixpoint": info["fixpoint"]})
         allfix = allfix and info["fixpoint"]
+    acc.merge(core.merge_all(core.pmap(scale_work, scale_items())))
     changing = sum(v for k, v in acc.outcomes.items() if "(" not in k and ":" not in k)
     cov = {
         "states": S, "transitions": T, "traces_validated_against_impl": T,
@@ -303,6 +349,9 @@ def explore(tier):
                 "transition executed on real Nodes and on a dict-per-node model, frame condition + value agreement checked. "
                 "distinct_nontrivial = distinct canonical states.",
         "runs": per,
+        "beyond_the_bfs": "parent with 0..6 of six prefixes x child with any subset bound to its own URIs x leaf / with a child x "
+                          "append / index 0; chains of 26, 30, 64 nodes with declarations, removals and re-declarations at several depths",
+        "scale_histories": acc.counts.get("scale_histories", 0),
     }
     if not allfix:
         cov["cap"] = "runs with a depth_bound were cut at that BFS depth; everything below it is fully covered"
